@@ -1154,6 +1154,13 @@ def documents(features=ALL_FEATURES, exclude=(), max_items=14, classes=("article
         elif k == "env":
             b = {"k": "env", "name": draw(st.sampled_from(["quote", "center", "flushleft"])),
                  "c": draw(st.lists(block(depth + 1, thmnames, openok=True), min_size=1, max_size=3))}
+            # half of the environments end right after their last paragraph (no blank line before
+            # \end{..}); a third hold just one such paragraph, so no \par token occurs inside at all
+            tight = draw(st.integers(0, 5))
+            if tight == 0:
+                b["c"] = [draw(par())]
+            if tight <= 2 and b["c"][-1]["k"] == "par" and not b["c"][-1].get("open"):
+                b["c"][-1] = dict(b["c"][-1], sep=0)
         elif k == "equation":
             b = {"k": "equation", "c": draw(math()),
                  "label": "?" if ("labels" in F and draw(st.booleans())) else None}
